@@ -200,10 +200,13 @@ func (k Keeper) UpdateLPRewards(ctx sdk.Context) error {
 	}
 	lpsEdenAmount := edenAmountPerYear.Quo(math.NewInt(totalBlocksPerYear))
 
-	// Ensure edenDenomPrice is not zero to avoid division by zero
+	// edenDenomPrice can round to zero (an ELYS pool priced below 1e-18 per base unit). The Eden APR cap cannot be
+	// computed then: no Eden is allocated this block, the collected gas / dex rewards are still distributed.
+	// Returning an error here would fail the whole block.
 	edenDenomPrice := k.amm.GetEdenDenomPrice(ctx, baseCurrency)
-	if edenDenomPrice.IsZero() {
-		return errorsmod.Wrap(types.ErrNoInflationaryParams, "invalid eden price")
+	edenPriceAvailable := !edenDenomPrice.IsZero()
+	if !edenPriceAvailable {
+		ctx.Logger().Error("masterchef: eden price is zero, no eden rewards allocated in this block")
 	}
 
 	// Distribute Eden / USDC Rewards
@@ -229,10 +232,13 @@ func (k Keeper) UpdateLPRewards(ctx sdk.Context) error {
 		newEdenAllocatedForPool := math.LegacyZeroDec()
 
 		// Maximum eden APR - 30% by default
-		poolMaxEdenAmount := params.MaxEdenRewardAprLps.
-			Mul(proxyTVL).
-			QuoInt64(totalBlocksPerYear).
-			Quo(edenDenomPrice)
+		poolMaxEdenAmount := math.LegacyZeroDec()
+		if edenPriceAvailable {
+			poolMaxEdenAmount = params.MaxEdenRewardAprLps.
+				Mul(proxyTVL).
+				QuoInt64(totalBlocksPerYear).
+				Quo(edenDenomPrice)
+		}
 
 		// Use min amount (eden allocation from tokenomics and max apr based eden amount)
 		if pool.EnableEdenRewards {
